@@ -184,9 +184,27 @@ def run_rc(pid, tier, seed, replay=None):
 
         violations = []
         known_hit = {}
-        # 1. saved regression inputs and known-finding reproductions (seconds)
-        corpus_files = sorted(glob.glob(os.path.join(CORPUS, pid, "*.case")))
+        # 1. hand-written fixed cases (regressions, known-finding reproductions), then
+        #    saved tapes (seconds)
         replayed = 0
+        pf = subprocess.run(prlimit_cmd([exe, "--fixed"] + base_args), env=env, stdout=subprocess.PIPE,
+                            stderr=subprocess.STDOUT, timeout=P.get("replay_timeout", 600))
+        fout = pf.stdout.decode(errors="replace")
+        for k in re.findall(r"^KNOWN (.+)$", fout, re.M):
+            known_hit[k] = known_hit.get(k, 0) + 1
+        replayed += len(re.findall(r"^FIXED \S+ (PASS|FAIL)", fout, re.M))
+        bad_fixed = re.findall(r"^FIXED (\S+) FAIL (.*)$", fout, re.M)
+        if pf.returncode not in (0, 1):
+            log("fixed cases crashed (status %s):\n%s" % (pf.returncode, fout[-3000:]))
+            bad_fixed.append(("crash", "fixed-case run died with status %s" % pf.returncode))
+        for name, msg in bad_fixed:
+            os.makedirs(os.path.join(FAIL, pid), exist_ok=True)
+            fpath = os.path.join(FAIL, pid, "fixed-%s.case" % name)
+            with open(fpath, "w") as fp:
+                fp.write("# property %s\n# hand-written fixed case (props/%s.cpp fixed_cases)\n#! %s\nfixed %s\n" %
+                         (pid, P["src"], msg, name))
+            violations.append((fpath, "fixed case %s: %s" % (name, msg)))
+        corpus_files = sorted(glob.glob(os.path.join(CORPUS, pid, "*.case")))
         for cf in corpus_files:
             st, known, out = replay_cmd(cf)
             replayed += 1
